@@ -308,6 +308,15 @@ XalanSourceTreeDocument::getDocumentElement() const
 XalanElement*
 XalanSourceTreeDocument::getElementById(const XalanDOMString&   elementId) const
 {
+    // The document may be shared by several threads once it has been
+    // built.  An empty map allocates its list of entries the first time
+    // find() or end() is called, even through a const reference, so don't
+    // touch it if there are no IDs.
+    if (m_elementsByID.empty() == true)
+    {
+        return 0;
+    }
+
     const ElementByIDMapType::const_iterator    i =
         m_elementsByID.find(elementId.c_str());
 
